@@ -21,6 +21,25 @@ CHECKS = {
         ref="3/C01",
         technique="deterministic simulation: seeded fault-injection sweep on the wire, reference-model + ledger oracle",
     ),
+    "C03": dict(
+        level="exploration",
+        text=("fault-free control configuration of the C01 world: joserfc issuer -> wire -> joserfc verifier holding only "
+              "re-imported public material; seeded search over alg x serialisation x key form (key, key set with every "
+              "random.choice candidate forced through the seam, callable) x header placement x payload class, with detach/"
+              "restore events; every delivery judged against the request and the reference verifier. Weak fit for simulation "
+              "(no fault/schedule), claimed as the control run the fault-injecting checks need."),
+        ref="3/C03",
+        technique="deterministic simulation (fault-free control run): seeded configuration search with entropy/choice seams, reference-model oracle",
+    ),
+    "C07": dict(
+        level="exploration",
+        text=("heterogeneous cluster: joserfc nodes and an independent RFC implementation exchange JWS in both directions over "
+              "a fault-free wire (arbitrary protected-header spellings from the peer; the peer sees only joserfc's exported "
+              "public JWK), plus published RFC example tokens as fixed events. Seeded sampling; refinement against the "
+              "reference implementation, no fault or schedule involved (weak fit, stated in DESIGN.md)."),
+        ref="3/C07",
+        technique="deterministic simulation with an independent in-process peer (differential interop), seeded search",
+    ),
 }
 
 NOT_APPLICABLE = {
